@@ -41,6 +41,8 @@ pub struct ItemModel {
     pub initial: i64,
     pub queue_shrunk: bool,
     pub modified: bool,
+    /// queue resizes since the last report: (last value sampled before it, old size, old policy, new size, new policy)
+    pub mods: Vec<(i64, usize, bool, usize, bool)>,
     /// last value reported (C25 model)
     pub last_reported: Option<(f64, u32)>,
 }
@@ -407,6 +409,7 @@ impl World {
                                     initial,
                                     queue_shrunk: false,
                                     modified: false,
+                                    mods: Vec::new(),
                                     last_reported: None,
                                 });
                             }
@@ -450,6 +453,10 @@ impl World {
                                         ctx.probe("queue_shrunk");
                                     }
                                     ctx.fault("queue_resize");
+                                    let var = it.var;
+                                    let last_sampled = self.vars[var].value as i64 - if self.vars[var].written_this_tick { 1 } else { 0 };
+                                    let it = &mut self.subs[k].items[j];
+                                    it.mods.push((last_sampled, it.queue.max(1), it.discard_oldest, (res.revised_queue_size as usize).max(1), dis));
                                     it.queue = res.revised_queue_size as usize;
                                     it.discard_oldest = dis;
                                     it.modified = true;
@@ -1149,9 +1156,49 @@ impl World {
         let prev: i64 = if n_before == 0 { it.initial - 1 } else { it.delivered[n_before - 1].0 };
         let desc = format!("q={},discard_oldest={}", q, it.discard_oldest);
         if it.modified {
-            // the queue was resized during this cycle: only the bound (larger of the two) applies
+            // the queue was resized during this cycle: replay the samples of the cycle through a
+            // step-by-step bounded queue that is resized where the Modify happened; a shrink keeps
+            // the most recent entries that fit
+            let mods = it.mods.clone();
+            let last = *vals.last().unwrap();
+            let mut expected: Vec<i64> = Vec::new();
+            let (mut mq, mut mdis) = mods.first().map(|m| (m.1, m.2)).unwrap_or((q, it.discard_oldest));
+            let apply = |expected: &mut Vec<i64>, mq: &mut usize, mdis: &mut bool, m: &(i64, usize, bool, usize, bool)| {
+                *mq = m.3;
+                *mdis = m.4;
+                if expected.len() > *mq {
+                    let cut = expected.len() - *mq;
+                    expected.drain(0..cut);
+                }
+            };
+            for m in mods.iter().filter(|m| m.0 <= prev) {
+                apply(&mut expected, &mut mq, &mut mdis, m);
+            }
+            for v in prev + 1..=last {
+                if expected.len() < mq {
+                    expected.push(v);
+                } else if mdis {
+                    expected.remove(0);
+                    expected.push(v);
+                } else if let Some(l) = expected.last_mut() {
+                    *l = v;
+                }
+                for m in mods.iter().filter(|m| m.0 == v) {
+                    apply(&mut expected, &mut mq, &mut mdis, m);
+                }
+            }
+            let sane = last > prev && mods.iter().all(|m| m.0 <= last);
+            if sane && vals != expected {
+                ctx.violate(
+                    "C24",
+                    "queue-content",
+                    "after-resize",
+                    format!("{} after resize(s) {:?} (last sampled value, old size, old discard-oldest, new size, new discard-oldest): delivered {:?}, a bounded queue that keeps the most recent entries on a shrink holds {:?} (previous report ended at {})", desc, mods, vals, expected, prev),
+                );
+            }
             let it = &mut self.subs[k].items[j];
             it.modified = false;
+            it.mods.clear();
             return;
         }
         if vals.len() > q {
